@@ -208,8 +208,10 @@ def run(ctx: core.Ctx):
         ctx.correspondence_broken("framing/parse model vs YncaProtocol.data_received / handle_line", {"count": len(disagreements), "first": disagreements[0]})
     ctx.assumptions += ["bytes.decode('utf-8','replace') on invalid input is not modelled (such packets are compared by count only)",
                         "CPython's re engine implements the documented semantics of the pattern"]
-    from .. import b2check
+    from .. import b2check, gen
     b2check.run_b2(ctx, thread_jobs, ["C02t"], label="chunked arrival through the real reader thread", accept=False)
+    b2check.run_b2(ctx, lambda rng, th: [(gen.conn_reconnect(rng, T), rng.randrange(10 ** 9), rng.choice([0, 0, 3])) for _ in range(4000 if th else 120)],
+                   ["C02r"], label="connect() again on the same connection object after a close() / a lost link that left a partial line", accept=False)
     return ctx.finish()
 
 
@@ -217,7 +219,7 @@ def replay(ctx, path):
     rp = json.load(open(path))["replay"]
     if rp.get("path") == "b2":
         from .. import b2check
-        return b2check.replay_b2(rp, ["C02t"])
+        return b2check.replay_b2(rp, ["C02r" if rp["spec"].get("reconnect_device") else "C02t"])
     from ynca.connection import YncaProtocol
     p = YncaProtocol(lambda *a: print("impl callback:", a), None, 0)
     if "line" in rp:
